@@ -59,6 +59,84 @@ def isDisabled (d : Disabled) (command plugin : Str) : Bool :=
 def isCmd (d : Disabled) (plugin : Str) (methods : List Str) (name : Str) : Bool :=
   !isDisabled d name plugin && name = canonicalName name && methods.contains name
 
+/-! ### the disabled-commands store (`DisabledCommands`) and `Owner.disable` / `Owner.enable` -/
+
+/-- `self.d[key]` / `key in self.d` on the canonical key -/
+def lookupK (d : Disabled) (k : Str) : Option (Option (List Str)) :=
+  (d.find? fun e => e.1 = k).map (·.2)
+
+/-- `self.d[key] = v` -/
+def setK : Disabled → Str → Option (List Str) → Disabled
+  | [], k, v => [(k, v)]
+  | (k', v') :: rest, k, v => if k' = k then (k, v) :: rest else (k', v') :: setK rest k v
+
+/-- `del self.d[key]` -/
+def delK (d : Disabled) (k : Str) : Disabled := d.filter fun e => e.1 ≠ k
+
+/-- `DisabledCommands.add(command, plugin)` -/
+def Disabled.add (d : Disabled) (command : Str) (plugin : Option Str) : Disabled :=
+  let k := canonicalName command
+  match plugin with
+  | none => setK d k none
+  | some p =>
+    match lookupK d k with
+    | none => setK d k (some [canonicalName p])
+    | some none => d                                         -- disabled everywhere: stays so
+    | some (some ps) => setK d k (some (if ps.contains (canonicalName p) then ps else ps ++ [canonicalName p]))
+
+/-- `DisabledCommands.remove(command, plugin)`; `none` = KeyError -/
+def Disabled.remove (d : Disabled) (command : Str) (plugin : Option Str) : Option Disabled :=
+  let k := canonicalName command
+  match plugin with
+  | none => if (lookupK d k).isSome then some (delK d k) else none
+  | some p =>
+    match lookupK d k with
+    | none => none
+    | some none => some d                                    -- disabled everywhere: nothing happens, no error
+    | some (some ps) =>
+      if ps.contains (canonicalName p) then some (setK d k (some (ps.filter fun q => q ≠ canonicalName p)))
+      else none
+
+/-- `plugin.isCommand(command)` for a string (= `isCommandMethod`) of the plugin `name` with command methods `methods` -/
+def isCmdOf (d : Disabled) (name : Str) (methods : List Str) (command : Str) : Bool :=
+  !(match lookupK d (canonicalName command) with
+    | none => false
+    | some none => true
+    | some (some ps) => ps.contains (canonicalName name))
+  && command = canonicalName command && methods.contains command
+
+/-- what `Owner.disable/enable` change: the live store `Commands._disabled` and the registry value
+`supybot.commands.disabled` (a set of canonical `command` / `plugin.command` names, read at start-up) -/
+structure OwnerSt where
+  store : Disabled
+  conf : List Str
+
+def dotted (plugin command : Str) : Str := canonicalName (plugin ++ '.' :: command)
+
+/-- `Owner.disable [<plugin>] <command>` (`command` already through the `commandName` converter);
+`plugin` = (class name, command methods) of the named plugin; the Bool = replied success -/
+def ownerDisable (s : OwnerSt) (plugin : Option (Str × List Str)) (command : Str) : OwnerSt × Bool :=
+  if command = ['e', 'n', 'a', 'b', 'l', 'e'] ∨ command = ['i', 'd', 'e', 'n', 't', 'i', 'f', 'y'] then (s, false)
+  else match plugin with
+    | some (name, methods) =>
+      if isCmdOf s.store name methods command then
+        (⟨s.store.add command (some name),
+          if s.conf.contains (dotted name command) then s.conf else s.conf ++ [dotted name command]⟩, true)
+      else (s, false)
+    | none =>
+      (⟨s.store.add command none,
+        if s.conf.contains (canonicalName command) then s.conf else s.conf ++ [canonicalName command]⟩, true)
+
+/-- `Owner.enable [<plugin>] <command>`: the store is changed first; a KeyError from either step is
+reported ("That command wasn't disabled.") — the store change of the first step is then kept -/
+def ownerEnable (s : OwnerSt) (plugin : Option Str) (command : Str) : OwnerSt × Bool :=
+  match s.store.remove command plugin with
+  | none => (s, false)
+  | some store' =>
+    let name := match plugin with | some p => dotted p command | none => canonicalName command
+    if s.conf.contains name then (⟨store', s.conf.filter fun x => x ≠ name⟩, true)
+    else (⟨store', s.conf⟩, false)
+
 inductive GErr where
   | indexError                -- `args[0]` on an empty list
 deriving DecidableEq, Repr
